@@ -395,7 +395,7 @@ func runC01(c *Ctx) {
 		}
 	}
 	// random mixed UTF-8 texts
-	for i := 0; i < c.Pick(300, 6000); i++ {
+	for i := 0; i < c.Pick(300, 20000); i++ {
 		n := r.Range(1, 120)
 		if r.Chance(0.1) {
 			n = r.Range(200, 1200)
@@ -459,7 +459,7 @@ func runC01(c *Ctx) {
 	})
 
 	// ---- correspondence on transposed (mirrored) and damaged matrices: the retry state machine and the error paths ----
-	nm := c.Pick(120, 1500)
+	nm := c.Pick(300, 6000)
 	c.Parallel(nm, 16, func(i int, r *Rng) {
 		v := []int{1, 2, 3, 6, 7, 8, 10, 14}[r.Intn(8)]
 		ec := cqrLevels[r.Intn(4)]
@@ -513,7 +513,7 @@ func runC01(c *Ctx) {
 // append, Hanzi, ECI forms, truncated and random streams; and BitSource reads
 func c01StreamSuite(c *Ctx) {
 	r := c.Rng
-	n := c.Pick(6000, 150000)
+	n := c.Pick(30000, 1000000)
 	for i := 0; i < n; i++ {
 		v := []int{1, 9, 10, 26, 27, 40}[r.Intn(6)]
 		var w c01BitWriter
@@ -547,7 +547,7 @@ func c01StreamSuite(c *Ctx) {
 		c.CmpF("qr-stream", fmt.Sprintf("c01 parse %s v=%d hint=%s", hexs(bytes), v, h.tok), goOut, cqrCmpParsed)
 	}
 	// BitSource
-	for i := 0; i < c.Pick(2000, 50000); i++ {
+	for i := 0; i < c.Pick(20000, 300000); i++ {
 		nb := r.Intn(12)
 		bs := make([]byte, nb)
 		for j := range bs {
